@@ -1531,6 +1531,15 @@ void Image::mask_blit(const Image& source, ssize_t x, ssize_t y, ssize_t w,
 
   clamp_blit_dimensions(*this, source, &x, &y, &w, &h, &sx, &sy);
 
+  // The mask is indexed in source-space, so it must also cover the clipped
+  // area at its source offset (sx, sy); check this up front instead of letting
+  // mask.read_pixel throw out_of_range partway through the copy.
+  if ((w > 0) && (h > 0) &&
+      ((static_cast<ssize_t>(mask.get_width()) < sx + w) ||
+          (static_cast<ssize_t>(mask.get_height()) < sy + h))) {
+    throw runtime_error("mask is too small to cover copied area");
+  }
+
   for (ssize_t yy = 0; yy < h; yy++) {
     for (ssize_t xx = 0; xx < w; xx++) {
       uint64_t r, g, b, a;
